@@ -1,5 +1,6 @@
 """C15 — loading a .yo listing puts exactly the listed bytes at the listed addresses."""
 
+from props import C19
 THEOREM_MODULES = ["Hcl.Theorems.C15", "Hcl.Tie.PinsYo"]
 THEOREMS = {"Hcl.Theorems.C15": ["Yo.C15_line", "Yo.C15_image", "Yo.overlay_spec", "Yo.C15_invalid_utf8", "Yo.loadLine_spec", "Yo.hexLoop_spec", "Yo.C15_line_no_panic", "Yo.C15_load_no_panic", "Yo.hexLoop_no_panic", "Yo.C15_empty_refused"],
             "Hcl.Tie.PinsYo": ["Tie.PinsYo.pinLoadLine", "Tie.PinsYo.pinLoadFrom"]}
@@ -38,4 +39,6 @@ def judge(req, impl, model, spec):
 def streams(tier, seed):
     q = tier == "quick"
     return [{"name": "yo", "stream": "yo", "count": 3000 if q else 150000, "judge": judge},
-            {"name": "yo-malformed", "stream": "yo-malformed", "count": 8000 if q else 400000, "judge": judge}]
+            {"name": "yo-malformed", "stream": "yo-malformed", "count": 8000 if q else 400000, "judge": judge},
+            # the same through FILES and the command line (accepted, rejected, big, not UTF-8, bare-CR, empty and malformed images, -q/-d/-t with and without TIMEOUT): the real binary, as in C19
+            {"name": "cli", "stream": "cli", "count": 300 if q else 8000, "pygen": C19.pygen, "judge": C19.judge}]
